@@ -40,8 +40,10 @@ class CoqJobs:
     def submit(self, name, typ, cases, checker, inputs, shard=150, jobs=4) -> None:
         if not cases:
             return
+        # generous per-shard timeout: on a loaded machine a shard that takes 5 s
+        # alone can take minutes, and a timeout would read as a broken model
         fut = self.pool.submit(self.ctx.run_cases, name, M.HEADER, typ, cases, checker,
-                               shard=shard, jobs=jobs)
+                               shard=shard, jobs=jobs, timeout=2400)
         self.jobs.append((name, fut, inputs))
 
     def finish(self) -> None:
@@ -102,15 +104,15 @@ def pure_inputs(ctx):
     len(d) <= COQ_MAX"""
     rng = ctx.rng
     out = []
-    n_small = ctx.scale(4, 7)
+    n_small = ctx.scale(4, 6)
     for d in M.small_strings(M.SMALL_ALPHABET, n_small):
         out.append(('small', d, len(d) <= ctx.scale(3, 5)))
-    for _ in range(ctx.scale(3500, 0)):       # quick: a sample of the longer ones
-        n = rng.randint(5, 8)
+    for _ in range(ctx.scale(3000, 30000)):   # a sample of the longer ones
+        n = rng.randint(n_small + 1, n_small + 4)
         out.append(('small', bytes(rng.choice(M.SMALL_ALPHABET) for _ in range(n)), False))
-    for tail in M.small_strings(b'-a\n ', ctx.scale(5, 8)):
+    for tail in M.small_strings(b'-a\n ', ctx.scale(5, 7)):
         out.append(('multipart_small', MP_HEADER + tail, len(tail) <= 4))
-    for _ in range(ctx.scale(1000, 20000)):
+    for _ in range(ctx.scale(800, 20000)):
         n = rng.randint(6, 12)
         out.append(('multipart_small',
                     MP_HEADER + bytes(rng.choice(b'--aa\n\n \r') for _ in range(n)), False))
@@ -216,15 +218,29 @@ def section_pure(ctx, coq) -> None:
             got = MessageBody._find_parts(d, memoryview(d), lines, bnd)
             parts_cases.append(M.enc_parts_case(d, bnd, lines, [[tuple(l) for l in p] for p in got]))
             parts_in.append((d, bnd))
+    if not ctx.quick:
+        # every string of length 7 over the small alphabet: top-level clauses only
+        from pymap.mime import MessageContent
+        n7 = 0
+        for t in M.itertools.product(M.SMALL_ALPHABET, repeat=7):
+            d = bytes(t)
+            c = MessageContent.parse(d)
+            n7 += 1
+            if bytes(c) != d or bytes(c.header) + bytes(c.body) != d or len(c) != 7:
+                ctx.failure('body_verbatim', 'content / header+body / size differ from d',
+                            {'data': d.hex(), 'len': 7, 'level': 'direct'},
+                            {'kind': 'content_not_verbatim', 'level': 'direct'})
+        fams['small_len7_monitor_only'] = n7
+        ctx.evaluations += n7
     ctx.extra['input_distribution'] = {
         'families': fams, 'nesting_depth': {str(k): v for k, v in sorted(depth_hist.items())},
         'length_log2': {str(k): v for k, v in sorted(len_hist.items())},
         'parse_raised': raised}
     ctx.sample({'generated_message': parse_in[-1].decode('latin-1')[:300] if parse_in else ''})
 
-    coq.submit('parse_small', 'parse_case', tiny_parse, 'chk_parse', tiny_in, shard=1500, jobs=6)
-    coq.submit('parse', 'parse_case', parse_cases, 'chk_parse', parse_in, shard=150, jobs=6)
-    coq.submit('fetch_direct', 'fetch_case', fetch_cases, 'chk_fetch', fetch_in, shard=150, jobs=6)
+    coq.submit('parse_small', 'parse_case', tiny_parse, 'chk_parse', tiny_in, shard=600, jobs=6)
+    coq.submit('parse', 'parse_case', parse_cases, 'chk_parse', parse_in, shard=120, jobs=6)
+    coq.submit('fetch_direct', 'fetch_case', fetch_cases, 'chk_fetch', fetch_in, shard=100, jobs=6)
     coq.submit('lines', 'bytes * list line', lines_cases, 'chk_lines', lines_in, shard=150, jobs=2)
     coq.submit('parts', 'parts_case', parts_cases, 'chk_parts', parts_in, shard=150, jobs=2)
 
@@ -280,6 +296,8 @@ def e2e_inputs(ctx, backend: str):
         # maildir: mostly LF-only messages, which stdlib mailbox gives back unchanged
         out.append(('generated', M.gen_message(rng, style=None if dict_b or rng.random() < 0.3
                                                else 'lf')))
+    for _ in range(ctx.scale(30, 300) if dict_b else ctx.scale(70, 600)):
+        out.append(('clean_lf', M.gen_clean_lf(rng)))
     for _ in range(ctx.scale(80, 1000) if dict_b else ctx.scale(20, 150)):
         out.append(('raw', M.gen_raw(rng, 600)))
     for _ in range(ctx.scale(4, 60) if dict_b else ctx.scale(2, 10)):
